@@ -51,7 +51,9 @@ def rules(model: Model, tier: str) -> List[RuleResult]:
     _reanchoring(fc, Yr)
 
     _hy = ac.hygiene_rules(model, ac.get_fncls(model, '_SolveIVP'), PROP, min_copies=5, min_opt=2, min_conv=1, min_idx=6)
-    return [R1, R2, R3, R4, R5, R6, R7, T, *_hy, Yr]
+    from ..rules import substitution as _subst
+    _sub = _subst.rules(model, PROP, tier)
+    return [R1, R2, R3, R4, R5, R6, R7, T, *_hy, Yr, *_sub]
 
 
 def _reanchoring(fc, Y: RuleResult):
